@@ -130,3 +130,33 @@ package transaction
 //@   nosafety
 //@   modifies *
 //@   ensures [json_id] err == nil && !raw ==> typeof(r) == typeid(ptr_transactionV3) && as(ptr_transactionV3, r) != nil && seq(as(ptr_transactionV3, r).txHash) == jsmap_hash(ref(jsm))
+
+// ---------------------------------------------------------------------------
+// C37: pre-validation of a v3 transaction against the ghost ledger: accepted only if the sender can
+// pay stepLimit*stepPrice + value; with update the sender is debited exactly that amount and the
+// recipient credited the value - for a transfer to oneself the net effect is the fee only
+// ---------------------------------------------------------------------------
+//@ property C37 C15
+//@ smt all (declare-fun txv3_to (Int) Iface)
+//@ func (tx *transactionV3) To() (a)
+//@   trusted
+//@   pure
+//@   requires tx != nil
+//@   ensures a == txv3_to(ref(tx)) && a != nil && ivalue(a) != 0
+//@ func MeasureBytesOfData(rev, data) (n, err)
+//@   trusted
+//@   pure
+//@ spec v3Cost(tx, price) = big(addr(tx.StepLimit.Int)) * price + (tx.Value != nil ? big(addr(tx.Value.Int)) : 0)
+//@ spec v3Value(tx) = (tx.Value != nil ? big(addr(tx.Value.Int)) : 0)
+//@ spec fromAcct(tx, wc) = acct_of(wc, addr_id(txv3_from(ref(tx))))
+//@ spec toAcct(tx, wc) = acct_of(wc, addr_id(txv3_to(ref(tx))))
+//@ func (tx *transactionV3) PreValidate(wc, update) (err)
+//@   arith int
+//@   nosafety
+//@   requires tx != nil && wc != nil
+//@   modifies ghost(bal)
+//@   ensures [affordable] err == nil ==> old(ghost(bal))[fromAcct(tx, wc)] >= v3Cost(tx, wc_price(wc)) && wc_price(wc) >= 0
+//@   ensures [unchanged] err != nil || !update ==> ghost(bal) == old(ghost(bal))
+//@   ensures [transfer] err == nil && update && fromAcct(tx, wc) != toAcct(tx, wc) ==> ghost(bal)[fromAcct(tx, wc)] == old(ghost(bal))[fromAcct(tx, wc)] - v3Cost(tx, wc_price(wc)) && (tx.Value != nil ==> ghost(bal)[toAcct(tx, wc)] == old(ghost(bal))[toAcct(tx, wc)] + v3Value(tx))
+//@   ensures [self] err == nil && update && fromAcct(tx, wc) == toAcct(tx, wc) ==> ghost(bal)[fromAcct(tx, wc)] == old(ghost(bal))[fromAcct(tx, wc)] - v3Cost(tx, wc_price(wc)) + v3Value(tx)
+//@   ensures [others] forall a iface :: {ghost(bal)[a]} a != fromAcct(tx, wc) && a != toAcct(tx, wc) ==> ghost(bal)[a] == old(ghost(bal))[a]
